@@ -1,1 +1,2 @@
+import Cpppo.Props.C15
 import Cpppo.Props.C19
